@@ -141,6 +141,9 @@ class Ctx:
                 timeout=300,
             )
         ok = True
+        if not hasattr(self, "extracted"):
+            self.extracted = set()
+        self.extracted.update(targets)
         for line in out.splitlines():
             if line.startswith("EXTRACT-OK"):
                 self.obligation("extract:" + line.split()[1], True)
@@ -152,6 +155,48 @@ class Ctx:
             self.obligation("extract:run", False, out[-1000:])
             ok = False
         return ok
+
+    def generated_imports(self, modules):
+        """Names X of every RotoV.Generated.X the given modules import, transitively,
+        through the RotoV sources."""
+        seen, todo, gen = set(), list(modules), set()
+        while todo:
+            m = todo.pop()
+            if m in seen:
+                continue
+            seen.add(m)
+            if m.startswith("RotoV.Generated."):
+                gen.add(m.split(".", 2)[2])
+                continue
+            path = os.path.join(LEAN, *m.split(".")) + ".lean"
+            try:
+                text = open(path).read()
+            except OSError:
+                continue
+            for im in re.findall(r"^\s*import\s+(\S+)", text, re.M):
+                if im.startswith(("RotoV.", "Driver.")):
+                    todo.append(im)
+        return gen
+
+    def ensure_generated(self, modules):
+        """A theorem is only re-checked against the source as it is NOW if every
+        generated module below it was regenerated in THIS run: regenerate those
+        that the check did not ask for itself (they may be stale - written by
+        another property's run, possibly on another tree)."""
+        need = self.generated_imports(modules)
+        if not need:
+            return True
+        rc, out = run([os.path.join(TARGET, "debug", "rotov-extract"), "--outputs"], timeout=60)
+        owner = {}
+        for line in out.splitlines():
+            parts = line.split()
+            if len(parts) == 2:
+                owner.setdefault(parts[1], parts[0])
+        done = getattr(self, "extracted", set())
+        missing = sorted({owner[n] for n in need if n in owner and owner[n] not in done})
+        if missing:
+            return self.extract(missing)
+        return True
 
     # ----------------------------------------------------------------- lean
     def theorem_names(self, module):
@@ -199,6 +244,8 @@ class Ctx:
         """Build the property's theorem module against the regenerated
         definitions and audit the axioms of every theorem in it."""
         names, examples = self.theorem_names(props_module)
+        self.ensure_generated([props_module] + [t for t in extra_targets if t.startswith("RotoV.")]
+                              + ["Driver.Main" + DRIVER_NAME.split("-")[-1].upper()])
         self.lean_files_clean([props_module] + list(extra_modules))
         ok, out = self.lake_build([props_module] + list(extra_targets))
         self.checker_cmds.append(f"cd /verif/lean && lake build {props_module} " + " ".join(
